@@ -418,6 +418,34 @@ class LemmaCase(Case):
           if kind == 'monotone-hypercube':
             fx = SI.multilinear(sizes, region, x, col)
             fy = SI.multilinear(sizes, region, y, col)
+            if rank >= 4:
+              # staged route (the direct nonlinear goal times out for 16 corners): f is affine in x_d,
+              #   f(y) - f(x) == (y_d - x_d) * sum_c w_c(x) * (K[c, d up] - K[c, d down]),
+              # w_c a product of factors in [0, 1] and every kernel difference >= 0
+              from vt import lemmas as LM
+              base, t = SI.base_and_frac(sizes, region, x)
+              others = [e for e in range(rank) if e != d]
+              D = P.const(0)
+              terms = []
+              for corner in itertools.product([0, 1], repeat=len(others)):
+                w = P.const(1)
+                v_lo = list(base)
+                for e, cbit in zip(others, corner):
+                  fac = t[e] if cbit else (1 - t[e])
+                  LM.nonneg_product(w, fac)
+                  w = w * fac
+                  v_lo[e] = base[e] + cbit
+                v_hi = list(v_lo)
+                v_hi[d] = base[d] + 1
+                dk = P.lift(col[SI.flat(sizes, v_hi)]) - P.lift(col[SI.flat(sizes, v_lo)])
+                LM.nonneg_product(w, dk)
+                terms.append(w * dk)
+                D = D + w * dk
+              delta = P.lift(y[d]) - P.lift(x[d])
+              if (fy - fx).same(delta * D):
+                for k, term in enumerate(terms):
+                  cl.append(('have:corner-term>=0[d%d,%d]@%s' % (d, k, list(region)), hyp.implies(term >= 0)))
+                  LM.nonneg_product(delta, term)
             cl.append(('monotone[d%d]@%s' % (d, list(region)), hyp.implies(fx <= fy)))
           else:
             for perm in itertools.permutations(range(rank)):
